@@ -69,6 +69,16 @@ Definition ops_of_names (s : string) : option (list op) :=
   fold_right (fun n acc => match op_of_name n, acc with Some o, Some l => Some (o :: l) | _, _ => None end)
              (Some []) (split ","%char s).
 
+(* all writes of tracked fields with the lock classes held *)
+Definition swrites (acts : list (tact op)) : list string :=
+  flat_map (fun a => match a with
+     | (f, true, h) => [field_name f ++ ":w@" ++ held_text h]
+     | _ => [] end) (taccs op [] acts).
+Definition static_writes (ops : list op) : string :=
+  show_set (flat_map (fun o => swrites (flat op (template o))) ops).
+Definition static_gocensus : string :=
+  show_set (map op_name go_census ++ go_outside_pattern).
+
 Definition static_locks (ops : list op) : string :=
   show_set (flat_map (fun o => fst (sevents [] (flat op (template o)))) ops).
 Definition static_unlocked (ops : list op) : string :=
